@@ -83,6 +83,7 @@ func vpClientConfig(o vpOpts) *plugin.ClientConfig {
 		Logger:              lg,
 		StartTimeout:        to,
 		Managed:             o.Managed,
+		SkipHostEnv:         true, // vpCmd already put the host environment in front; entries added there (TMPDIR) must stay last
 	}
 }
 
